@@ -87,6 +87,9 @@ var (
 				}
 				if s, ok := schemaOutputMap[id]; ok {
 					mapping.OutputName = s
+				} else if _, ok := schemaPackageMap[id]; !ok {
+					// Only the root type is overridden: keep the default output as well as the default package.
+					mapping.OutputName = defaultOutput
 				}
 				if s, ok := schemaRootTypeMap[id]; ok {
 					mapping.RootType = s
